@@ -90,7 +90,7 @@ def stats(c, r):
 
 
 e1check.run(dict(
-    prop='C09B', props='C09Barrier', model='barriert', harness='e1/barrier.cpp', bin='e1_barrier',
+    prop='C09B', props=['C09Barrier', 'C09uBarrier'], model='barriert', harness='e1/barrier.cpp', bin='e1_barrier',
     nontrivial=nontrivial, stats=stats,
     # the driver `barriert` runs the fine acceptor (timed busy-wait phase, completion step in three
     # steps), the coarse acceptor of the first round on the projected log, and the monitors of both
